@@ -24,7 +24,8 @@ Record case_C05 := {
 }.
 
 Definition init_core (cap0 : N) : cstate :=
-  {| files := []; mems := []; buf := []; reg := []; cap := cap0; caps := []; depth := 0 |}.
+  {| files := []; mems := []; buf := []; reg := []; cap := cap0; caps := []; depth := 0;
+     dk := {| vers := []; clock := 1; nowrite := []; ferr := false |} |}.
 Definition init_js (cap0 : N) : jstate := {| core := init_core cap0; dirs := []; jobs := []; nexth := 1%N |}.
 
 Definition model_obs (js : jstate) (r : result json) : obs5 :=
